@@ -10,6 +10,7 @@
   queries pass the same list `ps` (`Op.usesAll ps`); `Prevouts::One` queries are unconstrained.
 -/
 import EV.Proofs.SighashCacheProofs
+import EV.Proofs.BridgeCacheSpec
 namespace EV.Props.C13
 open EV EV.Codec EV.Sighash
 
@@ -112,5 +113,53 @@ theorem one_insufficient_err (tx : Tx) (ps : List TxOut) (idx j : Nat) (p : TxOu
 example : (run ⟨fun b => b.take 32, fun b => b.take 32, fun _ b => b.take 32⟩
     ⟨⟨2, 0, [⟨⟨List.replicate 32 1, 0⟩, false, [], 5, AssetIssuance.null, TxInWitness.empty⟩], []⟩, Cache.empty⟩
     [.q (.segwit 0 [] .null .all), .w 0 [[1]], .q (.segwit 0 [] .null .all), .w 3 []]).length = 4 := by decide
+
+/-! ### bridge to C03: every digest a used cache returns is the SPECIFICATION digest
+
+  `query_as_fresh` (above) says a used cache answers like the cache-free functions of src/sighash.rs; C03's
+  `legacy_digest_refines`, `segwit_msg_refines`, `taproot_msg_refines` say those functions are the independent
+  transcription of the specifications (`specDigest`: Core's `SignatureHash(BASE)`, BIP143 + issuance, Elements
+  taproot).  Composed (`EV.Proofs.BridgeCacheSpec`), with `Query.Covered n`: the signed input exists (legacy,
+  segwit v0) / the taproot hash type is one of the seven `from_u8` yields. -/
+
+/-- the cache-free functions ARE the specification digests (the three `…_refines` theorems of C03 as one) -/
+theorem fresh_equals_spec (hd : Dbl H) (tx : Tx) (q : Query) (hq : q.Covered tx.input.length) :
+    fresh H tx q = specDigest H tx q := fresh_eq_specDigest H hd tx q hq
+
+/-- outside `Covered` — legacy / segwit v0 on an input that does not exist — code and specification both abort
+    (the documented panic / Core's `assert(nIn < txTo.vin.size())`) -/
+theorem uncovered_query_both_abort (tx : Tx) (q : Query)
+    (hty : ∀ i pv a l ty g, q = .taproot i pv a l ty g → ty ≠ .reserved) (hq : ¬ q.Covered tx.input.length) :
+    (∃ s, fresh H tx q = .panic s) ∧ (∃ s, specDigest H tx q = .panic s) := uncovered_both_panic H tx q hty hq
+
+/-- **`used_cache_returns_spec_digest`**: one query against a cache in any state satisfying the invariant (new, or
+    used by any consistent history) returns the specification digest (or the specification's error) -/
+theorem used_cache_returns_spec_digest (hd : Dbl H) (tx : Tx) (ps : List TxOut) (q : Query) (hu : q.usesAll ps)
+    (hq : q.Covered tx.input.length) (c : Cache) (hc : CacheInv H tx ps c) :
+    (query H tx q c).2 = specDigest H tx q := cached_query_eq_spec H hd tx ps q hu hq c hc
+
+/-- **`cache_history_equals_spec`**: ANY finite history of queries and `witness_mut` updates on one cache object — new
+    or already used —, in any order, with repetitions, returns operation by operation what the specifications
+    prescribe over the ORIGINAL transaction; in particular every digest in the history is a specification digest -/
+theorem cache_history_equals_spec (hd : Dbl H) (tx : Tx) (ps : List TxOut) (ops : List Op)
+    (hu : ∀ o ∈ ops, o.usesAll ps) (hcov : ∀ o ∈ ops, o.Covered tx.input.length) (c : Cache) (hc : CacheInv H tx ps c) :
+    run H ⟨tx, c⟩ ops = ops.map (specOut H tx) ∧
+    ∀ (k : Nat) (q : Query), ops[k]? = some (Op.q q) →
+      (run H ⟨tx, c⟩ ops)[k]? = some (Out.digest (specDigest H tx q)) :=
+  ⟨run_eq_spec H hd tx ps ops hu hcov c hc, fun k q hk => run_getElem_eq_spec H hd tx ps ops hu hcov c hc k q hk⟩
+
+/-- the hypotheses are satisfiable: a hash record with `sha256d = sha256 ∘ sha256`, and a covered, consistent history
+    (segwit and taproot queries around a `witness_mut`) on the transaction of the example above -/
+example : ∃ H : SigHashes, Dbl H := ⟨⟨fun b => b.take 32, fun b => b.take 32, fun _ b => b.take 32⟩, fun x => by
+  simp only [List.take_take, Nat.min_self]⟩
+
+example :
+    let tx : Tx := ⟨2, 0, [⟨⟨List.replicate 32 1, 0⟩, false, [], 5, AssetIssuance.null, TxInWitness.empty⟩], []⟩
+    let ops : List Op := [.q (.segwit 0 [] .null .all), .w 0 [[1]], .q (.taproot 0 (.all [txOutDefault]) none none .default []),
+      .q (.legacy 0 [] .single)]
+    (∀ o ∈ ops, o.usesAll [txOutDefault]) ∧ (∀ o ∈ ops, o.Covered tx.input.length) := by
+  refine ⟨?_, ?_⟩ <;> intro o ho <;> simp only [List.mem_cons, List.mem_nil_iff, or_false] at ho <;>
+    rcases ho with rfl | rfl | rfl | rfl <;> simp [Op.usesAll, Query.usesAll, Op.Covered, Query.Covered]
+
 
 end EV.Props.C13
